@@ -209,6 +209,8 @@ func (x *Exec) jsonAssign(dst Ptr, dt types.Type, src Value, st types.Type) *Str
 }
 
 func init() {
+	// json.Number is a string type; String returns it unchanged
+	intrinsics["(encoding/json.Number).String"] = func(x *Exec, c *frame, fn *ssa.Function, a []Value) Value { return a[0] }
 	intrinsics["encoding/json.Marshal"] = func(x *Exec, c *frame, fn *ssa.Function, a []Value) Value {
 		ifc := a[0].(Iface)
 		if ifc.t == nil {
